@@ -267,9 +267,12 @@ def format_sweep_requests() -> list[Request]:
         out.append(Request.make("A(i,j) = B(i,j)", {"A": f, "B": "dd"}))
         out.append(Request.make("A(i,j) = B(i,j) + C(j,i)", {"A": f, "B": "ds", "C": "ds"}))
     for perm in ("120", "201", "021", "102", "210"):
-        for modes in ("ddd", "dds", "sdd", "dsd", "ssd"):
+        for modes in ("ddd", "dds", "dsd", "sdd", "dss", "sds", "ssd", "sss"):
             f = "".join(m + p for m, p in zip(modes, perm))
-            out.append(Request.make("A(i,j,k) = B(i,j,k)", {"A": f, "B": "sss"}))
+            # the operand is stored in the same ordering (so that a kernel exists) and once in natural order
+            out.append(Request.make("A(i,j,k) = B(i,j,k)", {"A": f, "B": "".join("s" + p for p in perm)}))
+            if modes in ("ddd", "dds", "sdd"):
+                out.append(Request.make("A(i,j,k) = B(i,j,k)", {"A": f, "B": "sss"}))
     for perm in ("120", "201"):
         f = "".join(m + p for m, p in zip("ddd", perm))
         out.append(Request.make("A(i,j,k) = D(i,j,l) * C(l,k)", {"A": f, "D": "dss", "C": "dd"}))
